@@ -13,6 +13,16 @@
 #include <unistd.h>
 #include <sys/stat.h>
 #include <sys/prctl.h>
+#include <pthread.h>
+#include <time.h>
+
+/* an entry "uid:gid:t" makes its exec call from a NEW thread; the main thread waits at most 5 s for it ("blocked" otherwise:
+ * e.g. a lock the previous, filtered-out call of another thread never released) */
+struct tcall { char *mark; int r, e; };
+static void *thread_call(void *p) {
+    struct tcall *t = p; char *av[] = { t->mark, NULL };
+    errno = 0; t->r = execv("/bin/prog", av); t->e = errno; return NULL;
+}
 
 static long fsize(const char *p) { struct stat st; return stat(p, &st) == 0 ? (long) st.st_size : 0; }
 
@@ -26,6 +36,7 @@ int main(int argc, char **argv) {
     for (char *tok = strtok_r(list, ",", &save); tok; tok = strtok_r(NULL, ",", &save), k++) {
         unsigned long uid = strtoul(tok, NULL, 10), gid = 4242;
         char *c = strchr(tok, ':'); if (c) gid = strtoul(c + 1, NULL, 10);
+        int threaded = c && strchr(c + 1, ':') && strchr(c + 1, ':')[1] == 't';
         if (seteuid(0) != 0) { perror("tool_uidhist: seteuid(0)"); return 3; }
         if (setresgid((gid_t) gid, (gid_t) gid, 0) != 0) { perror("tool_uidhist: setresgid"); return 3; }
         if (setresuid((uid_t) uid, (uid_t) uid, 0) != 0) { perror("tool_uidhist: setresuid"); return 3; }
@@ -33,9 +44,18 @@ int main(int argc, char **argv) {
         long before = fsize(argv[2]);
         char mark[64]; snprintf(mark, sizeof mark, "hist-%d-x", k);
         char *av[] = { mark, NULL };
-        errno = 0;
-        int r = execv("/bin/prog", av);
-        int e = errno;
+        int r, e;
+        if (threaded) {
+            struct tcall t = { mark, 0, 0 }; pthread_t th; struct timespec ts;
+            pthread_create(&th, NULL, thread_call, &t);
+            clock_gettime(CLOCK_REALTIME, &ts); ts.tv_sec += 5;
+            if (pthread_timedjoin_np(th, NULL, &ts) != 0) { printf("%lu\t%lu\t%ld\t%d\t%d\n", uid, gid, fsize(argv[2]) - before, -99, 0); fflush(stdout); _exit(0); }
+            r = t.r; e = t.e;
+        } else {
+            errno = 0;
+            r = execv("/bin/prog", av);
+            e = errno;
+        }
         printf("%lu\t%lu\t%ld\t%d\t%d\n", uid, gid, fsize(argv[2]) - before, r, e);
         fflush(stdout);
     }
